@@ -7,7 +7,7 @@
    table / buffer operations); bytecode-level pre-emption and the GIL are outside the model. *)
 From PM.theories Require Import Base Lock.
 From PM.Generated Require Import GenLock.
-From PM.proofs Require Import Lock_proofs LockGen_proofs.
+From PM.proofs Require Import Lock_proofs LockSerial_proofs LockGen_proofs.
 Open Scope list_scope.
 
 (* The skeleton regenerated from pymodbus/transaction.py and client/sync.py: the lock is bound
@@ -61,7 +61,64 @@ Theorem C15_nonreentrant_deadlocks :
 Proof. exact nonreentrant_deadlock. Qed.
 Print Assumptions C15_nonreentrant_deadlocks.
 
+(* --- serialisation: contiguity, quiescence, reply ownership --------------------------------- *)
+(* [good_program P]: every call of every thread is one bracket (well_bracketed) and is [own_ok]:
+   run ALONE against an in-order responsive peer from any quiescent client state and any values of
+   its locals, it leaves the client quiescent and returns the reply to its own request. *)
+
+(* the regenerated call has both properties (the second by symbolic execution of the skeleton for
+   an arbitrary tid counter, thread and call index) *)
+Theorem C15_generated_own_ok : own_ok GenLock.call_skeleton.
+Proof. exact gen_call_own_ok. Qed.
+Print Assumptions C15_generated_own_ok.
+
+(* the transport log is a concatenation of WHOLE per-call blocks — each the complete transport
+   projection (connect/send/recv) of one call of the program, no call twice — followed only by the
+   block-so-far of the thread that holds the lock: frames of different calls never interleave *)
+Theorem C15_contiguous : forall re tid0 P σ,
+  good_program P -> reachable re (init tid0 P) σ ->
+  exists closed cur,
+    sh_log (st_sh σ) = concat (map cblk closed) ++ cur /\
+    NoDup (map ctag closed) /\
+    Forall (fun e => exists calls, In calls P /\ In (snd e) calls) closed /\
+    match sh_lock (st_sh σ) with
+    | None => cur = []
+    | Some (o, _) => exists th, nth_error (st_thr σ) o = Some th /\
+                     cur = block o (th_k th) (th_done th) /\ ~ In (o, th_k th) (map ctag closed)
+    end.
+Proof. exact contiguous_all_schedules. Qed.
+Print Assumptions C15_contiguous.
+
+(* each completed call returned the reply to its own request (no reply lost, duplicated or
+   swapped), one value per call, in call order — for every schedule *)
+Theorem C15_own_reply : forall re tid0 P σ t th,
+  good_program P -> reachable re (init tid0 P) σ -> nth_error (st_thr σ) t = Some th ->
+  map fst (th_results th) = seq 0 (th_k th) /\
+  forall k r, In (k, r) (th_results th) -> own_result t k r.
+Proof. exact own_reply_all_schedules. Qed.
+Print Assumptions C15_own_reply.
+
+(* whenever the lock is free nothing is in flight: no unread reply, empty table, empty buffer *)
+Theorem C15_quiescent_when_free : forall re tid0 P σ,
+  good_program P -> reachable re (init tid0 P) σ -> sh_lock (st_sh σ) = None -> quiescent (st_sh σ).
+Proof. exact quiescent_when_free. Qed.
+Print Assumptions C15_quiescent_when_free.
+
+(* without the single bracket the conclusion is false: send under one acquisition and receive /
+   pick-up under a second one lets two threads get each other's replies *)
+Theorem C15_needs_the_bracket :
+  let bad := [Acquire; TidAlloc; Connect; Send; Release; Acquire; Recv; Process; Pickup; Release] in
+  let σ := run true [0;0;0;0;0; 1;1;1;1;1;1;1;1;1;1;1; 0;0;0;0;0;0]%nat (init 0 [[bad]; [bad]]) in
+  well_bracketed bad = false /\
+  map th_results (st_thr σ) =
+    [[(0%nat, Some {| f_tid := 2; f_thr := 1; f_k := 0 |})];
+     [(0%nat, Some {| f_tid := 1; f_thr := 0; f_k := 0 |})]].
+Proof. exact split_bracket_swaps_replies. Qed.
+Print Assumptions C15_needs_the_bracket.
+
 (* the hypotheses are satisfiable by the generated skeleton, for any thread / call counts *)
-Example C15_nonvacuous : forall calls, wb_program (map (fun n => repeat call_skeleton n) calls).
-Proof. intro calls. apply wb_program_uniform. exact gen_call_ok. Qed.
+Example C15_nonvacuous : forall calls,
+  wb_program (map (fun n => repeat call_skeleton n) calls) /\
+  good_program (map (fun n => repeat call_skeleton n) calls).
+Proof. intro calls. split; [apply wb_program_uniform; exact gen_call_ok|apply gen_good_program]. Qed.
 Print Assumptions C15_nonvacuous.
